@@ -7,6 +7,7 @@ from vf.harness import Violation, fingerprint
 
 PROPERTY = 'C01'
 X64 = True
+SHRINK = {'quick': 10, 'thorough': 60}
 RULE = (
     'generator models (forests of 1-6 links, free and world-attached roots, 1-3 stacked hinge/slide joints with arbitrary '
     'axes, body/anchor/geom offsets and rotations, limits, passive terms, actuators; class chosen by the first draw so every '
